@@ -208,7 +208,9 @@ func libCase(run *sim.Run, i int) {
 	cs = append(cs, corr{"other-message", tss.VerifySigningSignature(groupNonce, groupPub, append(append([]byte{}, msg...), 1), v.lagrange, v.sig, v.pub)})
 	if other != v && !bytes.Equal(other.pub, v.pub) { // threshold 1 gives every member the same key
 		cs = append(cs, corr{"other-member-key", tss.VerifySigningSignature(groupNonce, groupPub, msg, v.lagrange, v.sig, other.pub)})
-		cs = append(cs, corr{"other-member-lagrange", tss.VerifySigningSignature(groupNonce, groupPub, msg, other.lagrange, v.sig, v.pub)})
+		if !bytes.Equal(other.lagrange, v.lagrange) { // two members of a committee can have equal coefficients (e.g. ids 1 and 9 in {1,6,9,13,19})
+			cs = append(cs, corr{"other-member-lagrange", tss.VerifySigningSignature(groupNonce, groupPub, msg, other.lagrange, v.sig, v.pub)})
+		}
 		swapped, _ := tss.NewSignatureFromComponents(other.sig.R(), v.sig.S())
 		cs = append(cs, corr{"other-R", tss.VerifySigningSignature(groupNonce, groupPub, msg, v.lagrange, swapped, v.pub)})
 	}
